@@ -151,6 +151,8 @@ def corpus(tier):
     out.append(("delay2", [var("a", min_duration=2, max_duration=3), worker("w"), req("a", "w", early_out=1)], 4))
     out.append(("dynamic", [fixed("a", 2), fixed("b", 1), worker("w"), worker("v"), req("a", "v"), req("a", "w", dynamic=True), req("b", "w")], 3))
     out.append(("cumul3", [fixed("a", 2), fixed("b", 2), fixed("c", 1), cumul("k", 2), req("a", "k"), req("b", "k"), req("c", "k")], 3))
+    # a big cumulative worker: the tenth unit has a two-digit index in its internal name
+    out.append(("cumul10", [fixed("a", 1), cumul("k", 10), req("a", "k")], 1))
     out.append(("cumul-same-interval", [fixed("a", 2), fixed("b", 2), cumul("k", 3), req("a", "k"), req("b", "k")], 2))
     out.append(("select-cumul", [fixed("a", 1), fixed("b", 1), cumul("k", 2), worker("w"), req("a", "k"), req("b", "k"), req("b", "w")], 2))
     for bcls in ("NonConcurrentBuffer", "ConcurrentBuffer"):
